@@ -4,7 +4,7 @@ import os
 import common as C
 
 
-def run_crash(blocks, tag, timeout=1800):
+def run_crash(blocks, tag, timeout=1800, cmd="crash"):
     """blocks: list of (id, lines). returns dict id -> {'outcome': str, 'output': [json str], 'stderr': str}"""
     results = {}
     todo = list(blocks)
@@ -13,7 +13,7 @@ def run_crash(blocks, tag, timeout=1800):
         rounds += 1
         cf = os.path.join(C.BUILD, "crash_%s_%d.case" % (tag, rounds))
         C.write_cases(cf, todo)
-        rc, out, err = C.run([C.HARNESS, "crash", cf], timeout=timeout, env=C.GOENV)
+        rc, out, err = C.run([C.HARNESS, cmd, cf], timeout=timeout, env=C.GOENV)
         begun = None
         for line in out.splitlines():
             cid, _, rest = line.partition(" ")
